@@ -539,3 +539,6 @@ impl ProtectCallbackSender {
 #[cfg(feature = "verif")]
 #[doc(hidden)]
 pub use self::state::verif_incrate as verif_state;
+#[cfg(all(feature = "verif", not(kani)))]
+#[doc(hidden)]
+pub use self::live::verif_incrate as verif_live;
